@@ -39,6 +39,7 @@ CONSTANTS
     SnapshotOnPush,  \* BOOLEAN: see above
     WithLazy,        \* BOOLEAN: async-fn spans (begin at first poll)
     WithCurrent,     \* BOOLEAN: Frame::current(rt.ctxt()) hand-off frames
+    Panics,          \* BOOLEAN: real panics in span bodies / polls, caught below everything entered
     Emit
 
 Threads == 1..NThreads
@@ -333,6 +334,48 @@ Event(t) ==
     /\ UNCHANGED <<tp, fr, stk, tk, lazy, sp, slog>>
     /\ Log([op |-> "event", t |-> t], <<EventWant(t)>>)
 
+\* A real panic! in the innermost body on thread t, caught below everything t has entered:
+\* every guard is dropped innermost first; a span on the way completes inside its frame (its
+\* guard decides from `en` whether anything is sent; level and error are C05's), then its frame
+\* is left and the slot swapped back.  Result: [tp of t, fr, tk, em].
+RECURSIVE Unw(_, _, _, _, _)
+Unw(s, x, f, k, e) ==
+    IF s = <<>> THEN [tp |-> x, fr |-> f, tk |-> k, em |-> e]
+    ELSE LET en == s[Len(s)]
+             fi == en.f
+             i == f[fi].i
+             ids == IF x.some /\ x.fl = 1 THEN <<x.tr, x.sp, x.pa>> ELSE <<0, 0, 0>>
+             rec == IF i # 0 THEN <<[kind |-> "span", sent |-> sp[i].en, ids |-> ids, a |-> f[fi].a, i |-> i]>>
+                    ELSE <<>>
+             x1 == IF f[fi].active THEN f[fi].slot ELSE x
+             s1 == IF f[fi].active THEN x ELSE f[fi].slot
+             f1 == IF en.form = "guard" THEN [f EXCEPT ![fi].st = "idle", ![fi].slot = s1]
+                   ELSE [f EXCEPT ![fi] = NoFrame("dead")]
+             k1 == IF en.form = "poll" THEN [k EXCEPT ![en.k] = NoTask("done")] ELSE k
+         IN Unw(SubSeq(s, 1, Len(s) - 1), x1, f1, k1, e \o rec)
+
+\* what the statement demands of the spans that complete while unwinding, innermost first
+RECURSIVE UnwWants(_)
+UnwWants(s) ==
+    IF s = <<>> THEN <<>>
+    ELSE LET i == fr[s[Len(s)].f].i
+         IN (IF i # 0 THEN <<SpanWant(i)>> ELSE <<>>) \o UnwWants(SubSeq(s, 1, Len(s) - 1))
+
+StackSpans(t) == {fr[stk[t][n].f].i : n \in 1..Len(stk[t])} \ {0}
+
+Panic(t) ==
+    /\ Panics
+    /\ stk[t] # <<>>
+    /\ LET u == Unw(stk[t], tp[t], fr, tk, <<>>) IN
+          /\ tp' = [tp EXCEPT ![t] = u.tp]
+          /\ fr' = u.fr
+          /\ tk' = u.tk
+          /\ em' = u.em
+    /\ stk' = [stk EXCEPT ![t] = <<>>]
+    /\ sp' = [i \in Spans |-> IF i \in StackSpans(t) THEN [sp[i] EXCEPT !.st = "done"] ELSE sp[i]]
+    /\ UNCHANGED <<lazy, slog>>
+    /\ Log([op |-> "panic", t |-> t], UnwWants(stk[t]))
+
 \* Traceparent::try_from_str(header).push() on thread t
 Header(t, h) ==
     /\ FreeFrames # {}
@@ -372,6 +415,7 @@ Next ==
     \/ \E t \in Threads : Yield(t)
     \/ \E t \in Threads : Complete(t)
     \/ \E t \in Threads : Event(t)
+    \/ \E t \in Threads : Panic(t)
     \/ \E t \in Threads, h \in Headers : Header(t, h)
     \/ \E t \in Threads : Current(t)
 
@@ -421,7 +465,7 @@ FrameCarries ==
 
 \* leaving a span, a header scope or a carried frame restores the previous traceparent
 Restored ==
-    [][\A t \in Threads : Len(stk'[t]) < Len(stk[t]) => tp'[t] = Top(t).before]_tvars
+    [][\A t \in Threads : Len(stk'[t]) < Len(stk[t]) => tp'[t] = stk[t][Len(stk'[t]) + 1].before]_tvars
 
 EmitReplay == Emit => PrintT(<<"REPLAY", ToJson([steps |-> hist'])>>)
 =============================================================================
